@@ -320,7 +320,18 @@ def rpa_layout(ctx):
     if not (gen and res and gp and ah):
         R.bad(rule, 'bumble.hci.Address.generate_private_address', 'anchor missing: generate_private_address / resolve / generate_prand / ah')
         return
-    R.check('address_bytes = crypto.ah(irk, prand) + prand' in norm(gen), rule, 'bumble.hci.Address.generate_private_address', 'address = ah(irk, prand) || prand', 'RPA layout on generation changed', p.loc(gen))
+    irk_if = [n for n in walk_local(gen) if isinstance(n, ast.If) and norm(n.test) == 'irk']
+    body = irk_if[0].body if len(irk_if) == 1 else []
+    adr = [n for n in body if isinstance(n, ast.Assign) and dotted(n.targets[0]) == 'address_bytes']
+    ok = len(adr) == 1 and isinstance(adr[0].value, ast.BinOp) and isinstance(adr[0].value.op, ast.Add) and isinstance(adr[0].value.left, ast.Call) and call_attr(adr[0].value.left) == 'ah' \
+        and len(adr[0].value.left.args) == 2 and norm(adr[0].value.left.args[0]) == 'irk' and isinstance(adr[0].value.right, ast.Name) and norm(adr[0].value.left.args[1]) == adr[0].value.right.id
+    pr = adr[0].value.right.id if ok else 'prand'
+    pdefs = [norm(n.value) for n in walk_local(gen) if isinstance(n, ast.Assign) and dotted(n.targets[0]) == pr]
+    ok = ok and [d.split('.')[-1] for d in pdefs] == ['generate_prand()']
+    # nothing rewrites address_bytes between that assignment and its use in the irk branch
+    ok = ok and not [n for n in body[body.index(adr[0]) + 1:] if pr in norm(n) or 'address_bytes' in norm(n)] if ok else ok
+    R.check(bool(ok), rule, 'bumble.hci.Address.generate_private_address', 'address = ah(irk, prand) || prand with one prand from generate_prand(): the prand carried is the prand hashed',
+            'the resolvable address is not ah(irk, prand) || prand for one and the same marked prand: the hash no longer matches the prand carried in the address and the owner of the IRK cannot resolve it', p.loc(gen))
     d = {dotted(n.targets[0]): slice_parts(n.value) for n in walk_local(res) if isinstance(n, ast.Assign) and slice_parts(n.value)}
     R.check(d.get('hash_part') == ('address_bytes', '0', '3') and d.get('prand') == ('address_bytes', '3', '6'), rule, 'bumble.smp.AddressResolver.resolve | slices', 'hash = bytes 0..2, prand = bytes 3..5 (as generated)', f'resolver slices {d}', p.loc(res))
     R.check('local_hash = crypto.ah(irk, prand)' in norm(res) and 'hash_part == local_hash' in norm(res), rule, 'bumble.smp.AddressResolver.resolve | compare', 'ah(irk, prand) compared with the hash part', 'resolver comparison changed', p.loc(res))
